@@ -174,17 +174,15 @@ Definition spec_C09 (c : c09case) (obs : list Z) : bool :=
 
 (* ---- known-finding classes (known_findings.d/C09.json), decided on the input through the model ----
    classes 1 (synchronised update to another day of the same room), 2 (reference deletion),
-   3 (peer tombstone for another version) and 6 (synchronised version under another entity) were
-   repaired in /repo (4510e5f, f14488a, 9c2e3ca, 9b19d99): these writes now mark every key they
-   change (proofs/C09P.v: the _covers theorems), the classes are never returned.
-   7: an edge tombstone from a peer (delete_edges) that replaces a stored one for the same edge and
-      instant recorded under another source entity changes a key it does not mark
-      (INSERT OR REPLACE keys _edge_deletion_log without src_entity)
+   3 (peer tombstone for another version), 6 (synchronised version under another entity) and
+   7 (edge tombstone replacing one recorded under another source entity) were repaired in /repo
+   (4510e5f, f14488a, 9c2e3ca, 9b19d99, de0967d): every write kind now marks every key it changes
+   (proofs/C09P.v: all_writes_cover), these classes are never returned.
    9: any other write that changes a key it does not mark (NOT listed: would be reported)
    4: (CCanon) the history-hash column is not the canonical chain although counts and daily hashes are right
    5: (CCanon) a row is left behind for a key that stores nothing *)
 Definition op_class (o : op) : Z :=
-  match o with SDelEdges _ => 7 | _ => 9 end.
+  match o with _ => 9 end.
 Definition msg_classes (acc : state * list Z) (m : msg) : state * list Z :=
   let '(s, cl) := acc in
   match m with
